@@ -169,3 +169,30 @@ def c12_fresh_state(ctx, first, second):
     a2, b2 = stage_map(second, ctx.minimize_calls[1]["x"])
     ctx.ensure("second object: accumulated balance == its own single stage", eq(A2.apply_balance(x), x @ a2 + b2))
     ctx.ensure("first object unchanged by fitting the second", eq(A1.apply_balance(x), x @ a1 + b1))
+
+
+@ob("C12.failed_stage", cases=product_cases(first=MODES, third=MODES), mods=MODS, funcs=FUNCS, stubs=FREE, samples=(1, 2), tol=1e-5, budget={"timeout_ms": 20000},
+    cite="When balances are fitted in stages ..., applying the accumulated balance equals applying the stage balances one after the other (a stage that could not be fitted is no stage)",
+    note="history with a FAILING call in between: find_balance with an unsupported mode raises; the balance accumulated so far is what it was, and the next stage composes with it "
+         "(after seed C12_f: accumulated balance reset before the stage fit)")
+def c12_failed_stage(ctx, first, third):
+    ctx.minimize_calls = []
+    src = ctx.array("src", (2, 3), sample=(0.0, 1.0))
+    dst = ctx.array("dst", (2, 3), sample=(0.0, 1.0))
+    x = ctx.array("x", (2, 3), sample=(0.0, 1.0))
+    B = darsia.AdaptiveBalance()
+    with stubs.record_minimize(ctx):
+        B.find_balance(src, dst, mode=first)
+    a1, b1 = stage_map(first, ctx.minimize_calls[0]["x"])
+    raised = False
+    try:
+        with stubs.record_minimize(ctx):
+            B.find_balance(src, dst, mode="cubic")
+    except Exception:      # noqa: BLE001
+        raised = True
+    ctx.ensure("an unsupported mode is refused", raised and len(ctx.minimize_calls) == 1)
+    ctx.ensure("after the refused call the accumulated balance is still the first stage", eq(B.apply_balance(x), x @ a1 + b1))
+    with stubs.record_minimize(ctx):
+        B.find_balance(src, dst, mode=third)
+    a3, b3 = stage_map(third, ctx.minimize_calls[1]["x"])
+    ctx.ensure("the next stage composes with the balance accumulated before the refused call", eq(B.apply_balance(x), (x @ a1 + b1) @ a3 + b3))
